@@ -1,7 +1,7 @@
 (* C09 - persisted status is always consistent and only moves forward.
    Only statements here; every proof is `exact <lemma>` (StatusProofs.v) over the model Status.v of
    jade/jobs/cluster.py.  Vocabulary: wf, status_inv, mono, job_adv (top of StatusProofs.v);
-   round_ok / resubmit_ok / op_ok / run_ok (Status.v) are the preconditions that the real callers
+   round_ok / op_ok / run_ok (Status.v) are the preconditions that the real callers
    (HpcSubmitter.run, JobSubmitter, resubmit_jobs) guarantee, as boolean predicates. *)
 From Coq Require Import List ZArith NArith Bool.
 From Jade Require Import Base Status StatusProofs.
@@ -79,21 +79,39 @@ Theorem c09_versions_strict : forall s s', mono s s' ->
 Proof. exact versions_strict. Qed.
 Print Assumptions c09_versions_strict.
 
-(* prepare_for_resubmission: when every job that is not rerun is SUBMITTED or DONE (resubmit_ok) the
-   status is consistent again with submitted = num - |rerun|, the rerun jobs are NOT_SUBMITTED with
-   the given blockers, all other jobs untouched, is_complete false, both versions strictly higher;
-   is_canceled is NOT reset *)
-Theorem c09_resubmit_reset : forall s rerun upd, wf s -> status_inv s -> resubmit_ok s rerun = true ->
+(* prepare_for_resubmission (as repaired by /repo commit ce6353a) on a complete submission, for EVERY
+   rerun set and blocker map (unknown names, duplicates included): no exception, the status is
+   consistent again (counters recounted from the table), the rerun jobs are NOT_SUBMITTED with the
+   given blockers, all other jobs untouched, is_complete false, both versions strictly higher, the
+   rows of the rerun jobs dropped; is_canceled is NOT reset.  On an incomplete submission: assertion. *)
+Theorem c09_resubmit_reset : forall s rerun upd, wf s -> status_inv s -> c_complete (st_cfg s) = true ->
   exists s', prepare_for_resubmission s rerun upd = Ok s' /\ wf s' /\ status_inv s'
     /\ c_complete (st_cfg s') = false
     /\ c_num (st_cfg s') = c_num (st_cfg s)
-    /\ c_submitted (st_cfg s') = c_num (st_cfg s) - Z.of_nat (length rerun)
     /\ js_jobs (st_js s') = map (reset_job rerun upd) (js_jobs (st_js s))
     /\ c_version (st_cfg s) < c_version (st_cfg s')
     /\ js_version (st_js s) < js_version (st_js s')
-    /\ c_canceled (st_cfg s') = c_canceled (st_cfg s).
+    /\ c_canceled (st_cfg s') = c_canceled (st_cfg s)
+    /\ st_rows s' = diffN (st_rows s) rerun.
 Proof. exact resubmit_reset. Qed.
 Print Assumptions c09_resubmit_reset.
+Theorem c09_resubmit_requires_complete : forall s rerun upd, c_complete (st_cfg s) = false ->
+  prepare_for_resubmission s rerun upd = Err EAssert.
+Proof. exact resubmit_not_complete_asserts. Qed.
+Print Assumptions c09_resubmit_requires_complete.
+
+(* HISTORY / regression: the formula used before commit ce6353a (submitted_jobs = num_jobs - |rerun|)
+   breaks the invariant on a reachable status: j1 submitted, submission canceled and force-completed with
+   j2 never submitted, `resubmit-jobs --no-missing` reruns nothing -> submitted_jobs = 2 with one job
+   SUBMITTED.  The correspondence must DISAGREE with this old model on the witness (harness/props/c09.py). *)
+Theorem c09_resubmit_old_formula_refuted :
+  exists s s', run_ok (create old_witness_spec) old_witness_ops = true
+    /\ run (create old_witness_spec) old_witness_ops = Ok s
+    /\ prepare_for_resubmission_old s [] [] = Ok s'
+    /\ c_submitted (st_cfg s') = 2 /\ cnt SUBMITTED (js_jobs (st_js s')) + cnt DONE (js_jobs (st_js s')) = 1
+    /\ ~ status_inv s'.
+Proof. exact resubmit_old_refuted. Qed.
+Print Assumptions c09_resubmit_old_formula_refuted.
 
 (* ---------- non-vacuity: a concrete history with cancellations, completion and a resubmission ---------- *)
 Definition ex_spec : list (N * list N * bool) :=
